@@ -59,6 +59,32 @@ CHECKS = [
         "with different ghost fillers). " + _MODES,
     },
     {
+        "property_id": "C04",
+        "category": "model_checking",
+        "technique": "explicit enumeration of request histories (depth 2-3 + long rotations), each executed in a forked child of an idle interpreter, against the single-request result in a fresh child",
+        "text": "State = history of requests.  Every ordered history of depth 2 (depth 3 inside colliding groups and the stateful "
+        "family) over alphabets with colliding attributes - make_operator / field operators for up to 15 BC kinds (same value, other "
+        "class; per-side mirrors; expression vs constant) on equal grids of another instance, class or coordinate system, PDE "
+        "rates / compiled rhs / solve for equations that differ only in BCs, bc_ops, constants or backend, expressions, and a "
+        "stateful family (interpolate, link fields into collections, change data) - runs in a forked child of an interpreter that "
+        "imported pde but executed nothing; the value of EVERY request must equal bit for bit its value alone in a fresh child "
+        "(for interpolation: the value a brand-new field with the current contents gives).  Long histories (rotations of the full "
+        "alphabet and their reverses) add first-writer-wins coverage; compiled operator caches are re-checked under real JIT.",
+        "note": "Bounded depth and alphabets; global configuration held fixed; the warmed-up parent has imported all pde modules and "
+        "created the backend singletons (no py-pde call executed). " + _MODES,
+    },
+    {
+        "property_id": "C05",
+        "category": "exploration",
+        "technique": "bounded-exhaustive enumeration of grids; linear conservation functional evaluated on every basis vector; enumerated simulations with per-step integral tracking",
+        "text": "(a) For every grid (all classes, holes, periodic mixes, 1-cell axes, extreme spacings) the linear functional "
+        "f -> sum_i V_i (L_bc f)_i is evaluated on the zero field and EVERY unit basis vector (so it vanishes for all fields) for the "
+        "Laplacian with periodic/zero-flux conditions and for the divergence with vanishing normal component (Cartesian, conservative "
+        "spherical), with the grid's own and with exact closed-form cell volumes.  (b) Diffusion, Cahn-Hilliard and expression-PDE "
+        "simulations on 6 grids x 6 solvers x 2 backends x 3 step sizes x 3 step counts keep the integral recorded after every step.",
+        "note": "(a) is decisive by linearity; (b) uses one seeded state per configuration; diverging runs (dt=0.1) are counted, not compared. " + _MODES,
+    },
+    {
         "property_id": "C06",
         "category": "exploration",
         "technique": "bounded-exhaustive enumeration of (solver, backend, rate, dt, steps, t_start, state) against closed-form scheme recursions",
